@@ -716,7 +716,9 @@ class Interp:
             return SStr(z3.If(v.t, z3.StringVal("True"), z3.StringVal("False")))
         if isinstance(v, SReal):
             f = self.ufun("pystr_float", z3.RealSort(), z3.StringSort())
-            return SStr(f(v.t))
+            s = SStr(f(v.t))
+            s.origin_real = v  # A-REPR: float(str(x)) == x (repr of a float round-trips)
+            return s
         if isinstance(v, (EnumMember, SEnum, Obj)):
             m = v.cls.find_method("__str__")
             if m is not None:
